@@ -65,8 +65,9 @@ Theorem mouse_unhandled_exactly_when_not_handled :
 Proof. exact mouse_unhandled_iff_lemma. Qed.
 Print Assumptions mouse_unhandled_exactly_when_not_handled.
 
+(* [k+1]: the number of MainLoop.entering_idle callbacks the loop holds (1 in a first run) *)
 Theorem every_round_ends_with_a_redraw :
-  forall c o r, exists l, fst (spec_round c o r) = l ++ [TRender; TDraw].
+  forall c k o r, exists l, fst (spec_round c (S k) o r) = l ++ [TRender; TDraw].
 Proof. exact round_ends_with_redraw_lemma. Qed.
 Print Assumptions every_round_ends_with_a_redraw.
 
@@ -127,9 +128,39 @@ Theorem always_restored_full :
 Proof. exact always_restored_lemma. Qed.
 Print Assumptions always_restored_full.
 
+(* --- run() again on the same MainLoop and Screen (screen with hook_event_loop).
+       [Restartable c T0 s]: the display is stopped (never started, or stopped by an earlier run()), the
+       terminal is T0, PopUpTarget's bookkeeping is consistent.  Nothing else has to be reset between runs:
+       (a) the first session leaves such a state on EVERY path - normal end, ExitMainLoop or an exception at any
+           callback index - and the only thing an exception leaves in the loop's idle phase is the idle
+           callback of that run (MainLoop.stop() is not called on that path);
+       (b) from ANY such state run() again delivers in order (what was left in the alarm heap fires first, each
+           idle phase redraws once per registered idle callback), ExitMainLoop ends it normally, any other
+           exception leaves it unchanged, the terminal is restored and the state is restartable again -
+           for every script and every fault plan of that run.  By induction: any number of runs. --- *)
+Theorem first_run_leaves_a_restartable_state :
+  forall c p rounds inputs T0, c_hook c = true -> wf_config c -> initial_modes T0 ->
+    let s1 := snd (session c p rounds inputs (init_st T0)) in
+    Restartable c T0 s1 /\
+    idle_reg s1 = (match snd (cut (plan_at p) 0 (spec_hook_session c rounds)) with
+                   | Some (FRaise _) => 1%nat | _ => O end).
+Proof. exact first_run_restartable_lemma. Qed.
+Print Assumptions first_run_leaves_a_restartable_state.
+
+Theorem run_again_from_any_restartable_state :
+  forall c p rounds inputs T0 s, c_hook c = true -> wf_config c -> initial_modes T0 -> Restartable c T0 s ->
+    let L := spec_loop c (S (idle_reg s)) (l_pop s) (alarms s ++ [AEnteringIdle]) rounds in
+    let ct := cut (plan_at p) (n s) L in
+    let rs := ml_run c p rounds inputs s in
+    acts (snd rs) = acts s ++ fst ct /\ n (snd rs) = n s + ncb (fst ct) /\ fst rs = loop_result (snd ct) /\
+    tm (snd rs) = T0 /\ s_started (scr (snd rs)) = false /\ Restartable c T0 (snd rs) /\
+    idle_reg (snd rs) = (match snd ct with Some (FRaise _) => S (idle_reg s) | _ => idle_reg s end).
+Proof. exact rerun_lemma. Qed.
+Print Assumptions run_again_from_any_restartable_state.
+
 (* --- non-vacuity: the model computes something, the hypotheses are satisfiable --- *)
 Definition ex_config : config :=
-  Config true (Some [99]) (Some false) true true true true true false [7] true true [(97, 0); (98, 12)] [1] true false [].
+  Config true (Some [99]) (Some false) true true true true true false [7] true true [(97, 0); (98, 12)] [1] true false [] false.
 Definition ex_rounds : list (list event) :=
   [[EInput [KKey 97; KKey 98; KKey 99; KKey 100; KMouse 1 3 2; KMouse 2 3 2]; EAlarm 5]; [EResize]; [EPipe 1 65]].
 
@@ -154,7 +185,7 @@ Proof. vm_compute. repeat split; reflexivity. Qed.
 
 (* the former refutation witness: an application handler (id 2) on SIGCONT survives run() *)
 Definition sigcont_witness_config : config :=
-  Config true None None false false false false false false [] true true [] [] false false [].
+  Config true None None false false false false false false [] true true [] [] false false [] false.
 Example ex_sigcont_kept :
   tm (snd (session sigcont_witness_config [] [] [] (init_st (normal_term 0 0 0 2)))) = normal_term 0 0 0 2.
 Proof. vm_compute. reflexivity. Qed.
@@ -168,7 +199,7 @@ Proof. vm_compute. repeat split; reflexivity. Qed.
 
 (* ExitMainLoop from the idle redraw of a screen without hook_event_loop *)
 Definition ex_plain_config : config :=
-  Config false None (Some true) true false false false false false [4] true true [] [] false false [].
+  Config false None (Some true) true false false false false false [4] true true [] [] false false [] false.
 Example ex_plain_exit :
   let rs := session ex_plain_config [(3, FExit)] [] [[KKey 97]; []; [KKey 98]] (init_st (normal_term 0 0 0 0)) in
   fst rs = ROk tt /\ n (snd rs) = 4 /\
@@ -179,7 +210,7 @@ Proof. vm_compute. repeat split; reflexivity. Qed.
 (* pop-up opened ('o' = 111), a key for it (107, handled by the pop-up), closed ('x' = 120), the same key now
    for the body (unhandled), opened again, a key the pop-up does not handle (106), closed *)
 Definition ex_popup_config : config :=
-  Config true None (Some false) false true false false false false [] true true [] [] false true [107].
+  Config true None (Some false) false true false false false false [] true true [] [] false true [107] false.
 Example ex_popup_wf : wf_config ex_popup_config.
 Proof. reflexivity. Qed.
 Example ex_popup_reopen :
@@ -191,4 +222,20 @@ Example ex_popup_reopen :
   filter (fun t => match t with TUnhandled _ => true | _ => false end) (acts (snd rs)) =
     [TUnhandled (KKey 107); TUnhandled (KKey 106)] /\
   tm (snd rs) = normal_term 0 0 0 0.
+Proof. vm_compute. repeat split; reflexivity. Qed.
+
+(* a first run ended by an exception in the unhandled-input handler (callback #3) with an alarm still in the
+   heap; the second run() fires the left-over alarm, redraws twice per idle phase (the first run's idle
+   callback is still registered), ends normally and restores the terminal *)
+Definition ex_two_runs_config : config :=
+  Config true None (Some false) false false false false false false [] true true [] [] false false [] true.
+Example ex_second_run_after_exception :
+  let x := run_twice ex_two_runs_config [(3, FRaise 9)] [[EInput [KKey 98]; EAlarm 4]] [] (init_st (normal_term 0 0 2 2)) in
+  fst (fst x) = RErr (UserExc 9) /\
+  match snd x with
+  | Some (r2, s2) =>
+      r2 = ROk tt /\ tm s2 = normal_term 0 0 2 2 /\ s_started (scr s2) = false /\
+      skipn 6 (acts s2) = [TAlarm 4; TRender; TDraw; TRender; TDraw; TRender; TDraw]
+  | None => False
+  end.
 Proof. vm_compute. repeat split; reflexivity. Qed.
